@@ -22,7 +22,6 @@ indices) of the reference model reachable with the operation menu, transitions
 = window changes executed on the implementation, traces = histories executed.
 """
 import hashlib
-import itertools
 
 import numpy as np
 
@@ -301,13 +300,30 @@ class Driver:
         except Exception:   # noqa
             return None
 
-    def _value_key(self, meth, got, exp):
+    def _classify(self, meth, got, exp, rows=None, flag=""):
+        """None when `got` equals `exp` (on the judged rows); otherwise the
+        violation key: a memo that survived the window change (a fresh object
+        with the same window is right), a wrong shape, or a wrong value."""
+        def same(x):
+            if x.shape != exp.shape:
+                return False
+            if rows is not None:
+                return bool(np.allclose(x[rows], exp[rows], **TOL))
+            return bool(np.allclose(x, exp, **TOL))
+        if same(got):
+            return None
         fr = self._fresh_value(meth)
-        if fr is not None and fr.shape == exp.shape and \
-                np.allclose(fr, exp, equal_nan=True, **TOL):
-            return "ClimateData.%s:stale-after:%s" % (meth, self.last[0]
-                                                      if self.last else "init")
-        return "ClimateData.%s:value" % meth
+        if fr is not None and same(fr):
+            return "ClimateData.%s:stale-after:%s" % (
+                meth, self.last[0] if self.last else "init")
+        if got.shape != exp.shape:
+            form = ""
+            full = np.array(self.X, dtype=float)
+            if meth == "anomaly" and got.shape == full.shape and \
+                    np.array_equal(got, full):
+                form = "=unwindowed-full-observable"
+            return "ClimateData.%s:shape%s%s" % (meth, flag, form)
+        return "ClimateData.%s:value%s" % (meth, flag)
 
     def judge_climate(self, e, ctx, O):
         obj, viol, c = self.obj, self.viol, self.cycle
@@ -326,34 +342,26 @@ class Driver:
                 self.count(self.excl, "phases without a sample in the window "
                            "(cycle longer than the windowed series): their "
                            "phase mean is not judged", int(empty.sum()))
-            if pm.shape != (c, nN):
-                viol.append(V("ClimateData.phase_mean:shape", ctx, pm.shape,
-                              (c, nN)))
+            k = self._classify("phase_mean", pm, e["pm"], rows=~empty)
+            if k:
+                viol.append(V(k, ctx, pm, e["pm"]))
                 pm = None
-            elif not np.allclose(pm[~empty], e["pm"][~empty], **TOL):
-                viol.append(V(self._value_key("phase_mean", pm, e["pm"]), ctx,
-                              pm, e["pm"]))
         # ---- anomaly
         an = None
         try:
             an = np.asarray(obj.anomaly())
         except Exception as ex:   # noqa
             viol.append(V("ClimateData.anomaly:raises", ctx, repr(ex), ""))
-        flag = "anomalies=%s" % self.anomalies
+        flag = ":anomalies=%s" % self.anomalies
         if an is not None:
             exp = e["X"] if self.anomalies else e["an"]
-            if an.shape != (nT, nN):
-                form = ""
-                full = np.array(self.X, dtype=float)
-                if an.shape == full.shape and np.array_equal(an, full):
-                    form = "=unwindowed-full-observable"
-                viol.append(V("ClimateData.anomaly:shape:%s%s" % (flag, form),
-                              ctx + ": anomaly() does not have the shape of "
-                              "the windowed observable", an.shape, (nT, nN)))
+            k = self._classify("anomaly", an, exp, flag=flag)
+            if k:
+                viol.append(V(k, ctx + ": anomaly() is not the anomaly of the "
+                              "windowed observable", an if an.size < 40
+                              else an.shape, exp if exp.size < 40
+                              else exp.shape))
                 an = None
-            elif not np.allclose(an, exp, **TOL):
-                k = self._value_key("anomaly", an, exp)
-                viol.append(V(k + ":" + flag, ctx, an, exp))
             out.append(an is not None)
         if self.anomalies:
             self.count(self.excl, "anomalies=True: zero phase mean / add-back "
@@ -361,6 +369,7 @@ class Driver:
                        "anomalies")
         elif an is not None and pm is not None:
             # the two identities of the property, on the library's own output
+            # (only reached when the values themselves were not reported)
             for i in range(c):
                 rows = an[i::c]
                 if rows.shape[0] == 0:
@@ -402,7 +411,7 @@ class Driver:
                 break
             idx = M.indices_selected_phases(nT, c, sel)
             if got.shape != (len(idx), nN):
-                viol.append(V("ClimateData.anomaly_selected_months:shape:"
+                viol.append(V("ClimateData.anomaly_selected_months:shape"
                               + flag, ctx + " months %r" % sel, got.shape,
                               (len(idx), nN)))
             elif an is not None and not np.allclose(got, an[idx], **TOL):
